@@ -276,6 +276,12 @@ TEST_PROGRAMS = [
     "{a}. {b}. h :- X=#sum{1,a:a;1,b:b}, X<=5, X!=0.",
     "{a}. {b}. h :- X=#sum{1,a:a;1,b:b}, X>=0, X < 2.",
     "{a}. :- not 1 != 1, not 1 != 1, a.",
+    # aggregates of different signs that elimination merges (the sign the merged literal gets, placeCond)
+    "sync :- N = #count{S: on(S)}, not not N = #count{S: lamp(S)}. {on(S)} :- lamp(S).",
+    "sync :- X = #sum{1,S : lamp(S)}, not not X = #sum{1,S : on(S)}. {on(S)} :- lamp(S). on(S) :- sync, lamp(S).",
+    "sync :- X = #sum{1,S : lamp(S)}, not X = #sum{1,S : on(S)}. {on(S)} :- lamp(S).",
+    "sync :- X = #sum{1,S : lamp(S)}, not not X = #sum{1,S : on(S)}, not not Y = #sum{C,S : cost(S,C)}, X < Y. {on(S)} :- lamp(S).",
+    ":- X = #sum{1,S : lamp(S)}, not not X = #sum{1,S : on(S)}. {on(S)} :- lamp(S).",
     "{a}. h :- not 1 != 1, not 1 != 1, a.",
     "{a}. h(X) :- d(X), not X != 1, not X != 1, a.",
     "{a}. h(X) :- d(X), not not X < 3, not not X < 3, a.",
